@@ -261,7 +261,8 @@ def search(spec):
     for nn in range(1, spec.get("nodes", 4) + 1):
         for sh in Q.shapes(nn):
             for names in range(len(NAMESETS)):
-                for sep, attr in (("/", "name"), ("|", "tag")):
+                # a separator of more than one character as well (first name set only, to keep the cost)
+                for sep, attr in (("/", "name"), ("|", "tag")) + ((("::", "name"),) if names == 0 else ()):
                     if prop == "C07":
                         for ic in (False, True):
                             case = {"property": prop, "shape": sh, "names": names, "sep": sep, "attr": attr, "start": 0, "ic": ic,
